@@ -82,25 +82,28 @@ def upd {α} (f : Nat → α) (k : Nat) (v : α) : Nat → α := fun j => if j =
 /-- `UpdateEntry{Id, DeletedStatus:&v}` + observer (`UpdateHeads` with a non-zero status removes the id) -/
 def setStatus (s : St) (k v : Nat) : St :=
   { s with entry := upd s.entry k true, status := upd s.status k v,
-           adv := if v = 0 then s.adv else upd s.adv k false }
+           adv := fun j => if j = k ∧ v ≠ 0 then false else s.adv j }
 
 /-- `UpdateEntry{Id, Heads}` with non-root heads + observer -/
 def headsUpdate (s : St) (k : Nat) : St :=
   { s with edited := upd s.edited k true,
-           adv := if s.status k ≠ 0 then upd s.adv k false
-                  else if s.mirror k ≠ 0 then s.adv else upd s.adv k true }
+           adv := fun j => if j = k then
+                    (if s.status k ≠ 0 then false else if s.mirror k ≠ 0 then s.adv k else true)
+                  else s.adv j }
 
-/-- `CreateStorageTx` after its checks passed: root inserted, entry upserted with heads = [root], late
-child of a tombstoned parent queued -/
-def createTx (s : St) (k : Nat) : St :=
+/-- `CreateStorageTx` after its checks passed: root inserted, entry upserted with heads = [root] … -/
+def createBase (s : St) (k : Nat) : St :=
   let st0 := if s.entry k then s.status k else 0
-  let s1 : St := { s with entry := upd s.entry k true, status := upd s.status k st0,
-                          bound := upd s.bound k (s.parent k).isSome, edited := upd s.edited k false,
-                          stored := upd s.stored k true,
-                          adv := if st0 ≠ 0 then upd s.adv k false else s.adv }
+  { s with entry := upd s.entry k true, status := upd s.status k st0,
+           bound := upd s.bound k (s.parent k).isSome, edited := upd s.edited k false,
+           stored := upd s.stored k true,
+           adv := fun j => if j = k ∧ st0 ≠ 0 then false else s.adv j }
+
+/-- … and the late child of a tombstoned parent queued -/
+def createTx (s : St) (k : Nat) : St :=
   match s.parent k with
-  | some p => if s1.tomb p then setStatus s1 k 1 else s1
-  | none => s1
+  | some p => if (createBase s k).tomb p then setStatus (createBase s k) k 1 else createBase s k
+  | none => createBase s k
 
 /-- the checks of `CreateStorageTx` in their order: tombstone re-check inside the transaction, parent
 entry present -/
@@ -176,7 +179,7 @@ def addAll (s : St) (ids : List Nat) : St := ids.foldl addOne s
 
 /-- `tryMarkDeleted` + `DeleteTree` + `deletionstate.Delete` for one id -/
 def deleteOne (s : St) (k : Nat) : St :=
-  let s1 : St := if s.stored k then { s with stored := upd s.stored k false, live := upd s.live k false } else s
+  let s1 : St := { s with stored := upd s.stored k false, live := upd s.live k false }
   let s2 := setStatus s1 k 2
   { s2 with mirror := upd s2.mirror k 2 }
 
@@ -238,19 +241,40 @@ def applyView (s : St) (v : Option View) : St × Res :=
 
 def stepDeliver (s : St) (v : Option View) : St × Res := applyView s v
 
-/-- restart: memory rebuilt from the heads table in the order the space app runs its components -/
+def parentDeleted (s : St) (c : Nat) : Bool :=
+  match s.parent c with | some p => s.mirror p == 2 | none => false
+
+/-- orphan scan of `deletionstate.Run`: a bound child of a Deleted parent that is still NotDeleted -/
+def orphanCond (s : St) (c : Nat) : Bool :=
+  s.status c == 0 && s.entry c && s.bound c && parentDeleted s c
+
+def orphanOne (s : St) (c : Nat) : St :=
+  if orphanCond s c then
+    let s' := setStatus s c 1
+    { s' with mirror := upd s'.mirror c 1 }
+  else s
+
+/-- restart, part 1: everything in memory is dropped; `deletionstate.Run` reloads the mirror from the
+heads table -/
+def restartMem (s : St) : St :=
+  { s with live := fun _ => false, fetching := none, ss := none, adv := fun _ => false,
+           mirror := fun k => if s.entry k then (if s.status k = 1 then 1 else if 2 ≤ s.status k then 2 else 0) else 0 }
+
+/-- `DiffManager.FillDiff`: entries without a tombstone key, empty roots skipped -/
+def fillDiff (s : St) : St :=
+  { s with adv := fun k => s.entry k && s.status k == 0 && s.edited k }
+
+/-- restart: memory rebuilt from the heads table in the order the space app runs its components
+(deletionstate with its orphan scan, settings object, head sync) -/
 def stepRestart (s : St) (v : Option View) : St × Res :=
-  let s1 : St := { s with live := fun _ => false, fetching := none, ss := none,
-                          mirror := fun k => if s.entry k then (if s.status k = 1 then 1 else if 2 ≤ s.status k then 2 else 0) else 0,
-                          adv := fun _ => false }
-  -- orphan scan: bound children of Deleted parents still NotDeleted are queued
-  let orphans := (List.range s1.n).filter fun c =>
-    s1.entry c && s1.bound c && s1.status c == 0 &&
-      (match s1.parent c with | some p => s1.mirror p == 2 | none => false)
-  let s2 := orphans.foldl (fun s c => let s' := setStatus s c 1; { s' with mirror := upd s'.mirror c 1 }) s1
-  let (s3, r) := applyView s2 v
-  -- FillDiff: entries without a tombstone key, empty roots skipped
-  ({ s3 with adv := fun k => s3.entry k && s3.status k == 0 && s3.edited k }, r)
+  let r := applyView ((List.range s.n).foldl orphanOne (restartMem s)) v
+  (fillDiff r.1, r.2)
+
+/-- crash inside a deletion-worker pass: the first id `k` was marked Deleted (tree deleted), its bound
+children were not handled yet; then the peer restarts. Not an `Op`: the theorems of `Props/C15` are about
+crash-free worker passes, the correspondence and the direct oracle also cover this step. -/
+def stepCrash (s : St) (k : Nat) (v : Option View) : St × Res :=
+  if s.mirror k = 1 then stepRestart (deleteOne s k) v else (s, .nofetch)
 
 /-- `settingsObject.DeleteObject` -/
 def stepDel (s : St) (k : Nat) (snap : Bool) (v : Option View) : St × Res × Rec :=
